@@ -350,9 +350,23 @@ func (x *Exec) execCallback(f *Frame, i *ssa.Call) {
 		x.obligeGround(f, "nil", x.safetyTags(), x.cur.reach, Not(Eq(fv, IntLit(0))), "call of nil function value", i.Pos())
 	}
 	out := make([]Val, res.Len())
+	// a callback that is a parameter of the function under proof returns the same values at every
+	// call (named <param>$k in contracts)
+	pname := ""
+	for _, p := range x.fn.Params {
+		if x.params[p.Name()].T.S == fv.S {
+			pname = p.Name()
+		}
+	}
 	for k := 0; k < res.Len(); k++ {
-		t := x.b.Fresh("cb_"+i.Name(), x.tm.SortOf(res.At(k).Type()))
-		x.b.inputs = append(x.b.inputs, t.S)
+		var t Term
+		if pname != "" {
+			t = x.params[fmt.Sprintf("%s$%d", pname, k)].T
+			x.note("callback parameters are deterministic within one call (" + pname + "$k names their results)")
+		} else {
+			t = x.b.Fresh("cb_"+i.Name(), x.tm.SortOf(res.At(k).Type()))
+			x.b.inputs = append(x.b.inputs, t.S)
+		}
 		x.assume(x.cur.reach, x.typeFact(t, res.At(k).Type(), x.cur.Alloc(x)))
 		out[k] = Val{T: t}
 	}
